@@ -468,6 +468,11 @@ def run(ctx):
     # the small accessors and pass-through wrappers the rules above look through by name return what their names say (rules/accessors.py)
     from rules import accessors as _acc
     _acc.rule_accessors(ctx, "C16")
+    # the directory is an array reserved up front and filled later: entry k is slot k, by position (same rule instances as C01/index-bound, C09/same-slot)
+    from rules import c01 as _c01i, c09 as _c09s
+    n_ib = _c01i.index_bound_sites(ctx, "C16/index-bound")
+    ctx.floor("C16/index-bound", "set_value_at call sites", n_ib, 6)
+    _c09s.rule_same_slot(ctx, R="C16/same-slot")
 
 
 def thorough(ctx):
